@@ -528,6 +528,7 @@ func runC05(c *Ctx) {
 	if grpcDebug {
 		gl = zapgrpc.NewLogger(lg, zapgrpc.WithDebug())
 		c.Describe("grpc adapter built WithDebug()")
+		c.R.Probe("gRPC adapter built WithDebug()")
 	}
 
 	nTasks := 1
